@@ -286,3 +286,98 @@ def rand_mef(rng, node_mode=False, max_edges=6):
     if rng.random() < 0.3:
         kw["few_flow_values_epsilon"] = rng.choice([0.5, 0.25, 1.0, 0, 2.0])
     return kw, dict(acyclic=acyclic, is_int=is_int, scale=scale, missing=missing)
+# ---------------------------------------------------------------------------------------------
+# error models (C07 kLeastAbsErrors, C08 kMinPathError): arbitrary non-negative weights + options
+def rand_err_args(rng, kind, nmax=None, tiny=False, force_int=None):
+    """Constructor arguments (without k / solver options) for kLeastAbsErrors ('lae') or kMinPathError
+    ('mpe') on a random DAG with non-negative, not all zero, NOT necessarily conserving weights.
+    Returns (args, info); info = {'node_mode', 'is_int', 'paths'}."""
+    nmax = nmax or rng.choice([3, 4, 5, 6])
+    node_mode = (not tiny) and rng.random() < 0.22
+    is_int = rng.random() < (0.75 if kind == "mpe" else 0.6)
+    if force_int is not None:
+        is_int = force_int
+    unit = 1 if is_int else rng.choice([0.5, 0.25, 1.0, 1.5])
+    while True:
+        G0 = gen.rand_dag(rng, nmax=nmax)
+        if tiny and G0.number_of_edges() > 6:
+            continue
+        paths = gen.all_st_paths(G0)
+        if not paths:
+            continue
+        mode = rng.random()
+        if mode < 0.5:            # superposition of paths, perturbed
+            chosen = [rng.choice(paths) for _ in range(rng.randint(1, 3))]
+            ws = [rng.choice(WEIGHTS_INT) for _ in chosen]
+            f = {e: 0 for e in G0.edges()}
+            for e, x in superpose(rng, G0, chosen, ws).items():
+                f[e] = x
+            for e in f:
+                if rng.random() < 0.35:
+                    f[e] = max(0, f[e] + rng.choice([-2, -1, 1, 2, 3]))
+        else:                     # arbitrary values
+            top = rng.choice([1, 2, 3, 4, 6]) if tiny else rng.choice([1, 3, 6, 9])
+            f = {e: rng.randint(0, top) for e in G0.edges()}
+        if tiny:
+            f = {e: min(x, 4) for e, x in f.items()}
+        if all(x == 0 for x in f.values()):
+            continue
+        break
+    conv = (lambda x: int(x)) if is_int else (lambda x: float(x * unit))
+    es = list(G0.edges()); rng.shuffle(es)
+    args = {}
+    if not node_mode:
+        G = nx.DiGraph()
+        for (u, v) in es:
+            G.add_edge(u, v, flow=conv(f[(u, v)]))
+        elems = list(G.edges())
+    else:
+        # node weights: value of some incident edge / arbitrary; some nodes lack the attribute
+        G = nx.DiGraph()
+        G.add_edges_from(es)
+        for v in G.nodes():
+            if rng.random() < 0.85:
+                G.nodes[v]["flow"] = conv(rng.randint(0, 6))
+        if not any(G.nodes[v].get("flow", 0) > 0 for v in G.nodes()):
+            G.nodes[next(iter(G.nodes()))]["flow"] = conv(3)
+        elems = [v for v in G.nodes()]
+        args["flow_attr_origin"] = "node"
+    args.update(G=G, flow_attr="flow", weight_type=int if is_int else float)
+    if rng.random() < 0.35:
+        ign = [x for x in elems if rng.random() < 0.2]
+        weighted = [x for x in elems if (G.nodes[x] if node_mode else G.edges[x]).get("flow", 0) > 0]
+        if any(x not in ign for x in weighted):
+            args["elements_to_ignore"] = ign
+    if rng.random() < 0.45:
+        args["error_scaling"] = {x: rng.choice([0, 0.5, 1, 0.25, 0.5]) for x in elems if rng.random() < 0.3}
+    inner = [v for v in G.nodes() if G.in_degree(v) > 0 and G.out_degree(v) > 0]
+    if inner and rng.random() < 0.25:
+        if rng.random() < 0.7:
+            args["additional_starts"] = rng.sample(inner, min(len(inner), rng.randint(1, 2)))
+        if rng.random() < 0.7:
+            args["additional_ends"] = rng.sample(inner, min(len(inner), rng.randint(1, 2)))
+    if (not tiny) and rng.random() < 0.2:
+        cons = rand_constraints(rng, paths, maxn=2, contiguous=True)
+        if cons:
+            if node_mode:
+                cons = [[c[0][0]] + [e[1] for e in c] for c in cons]
+            args["subpath_constraints"] = cons
+    if rng.random() < 0.15:
+        n = rng.randint(1, 3)
+        args["solution_weights_superset"] = [conv(rng.choice([1, 2, 3, 5])) for _ in range(n)]
+    if kind == "mpe":
+        if is_int and rng.random() < 0.3:
+            cut = rng.choice([2, 3, 4])
+            fs = rng.choice([[1, 2], [2, 1], [1, 0.5], [0.5, 1], [1, 1.5], [1, 1], [2, 4]])
+            args["path_length_ranges"] = [(0, cut), (cut + 1, 40)]
+            args["path_length_factors"] = fs
+        if (not tiny) and rng.random() < 0.2:
+            args["length_attr"] = "len"
+            for x in (G.nodes() if node_mode else G.edges()):
+                if rng.random() < 0.8:
+                    (G.nodes[x] if node_mode else G.edges[x])["len"] = rng.choice([1, 2, 3])
+    if rng.random() < 0.5:
+        args["optimization_options"] = {"optimize_with_safe_paths": rng.random() < 0.5,
+                                        "optimize_with_safe_sequences": False,
+                                        "optimize_with_safe_zero_edges": rng.random() < 0.5}
+    return args, {"node_mode": node_mode, "is_int": is_int, "paths": paths}
